@@ -93,7 +93,7 @@ impl Prop for C16 {
         crate::common::classify(self.id(), loc, msg)
     }
     fn rule_text(&self) -> &'static str {
-        "seeded thread programs around each breaker transition, set up sequentially inside the execution and then raced by 2-3 simulated threads under our own seeded scheduler: (S1) Open with the retry timeout elapsed, threads request entries; (S2) Closed one error short of the threshold, threads complete entries with errors; (S3) Half-Open with the probe in flight, its completion (ok|error) races with new requests and stale completions; (S4) a probe rejected by a second, still Open breaker, racing with other requests. The virtual clock is frozen during the race. Oracles over a totally ordered event log (listener callbacks + decisions): per breaker the transitions form a valid path with matching previous state, each performed once; S1 exactly one admitted probe; S2 exactly one Closed->Open; S3 a request is admitted only after Half-Open->Closed; S4 nobody admitted and every won probe rolled back; final state = last transition. Non-trivial = execution with >= 1 preemption; distinct = distinct (schedule, outcome) hash."
+        "seeded thread programs around each breaker transition, set up sequentially inside the execution and then raced by 2-3 simulated threads under our own seeded scheduler: (S1) Open with the retry timeout elapsed, threads request entries; (S2) Closed one error short of the threshold, threads complete entries with errors; (S3) Half-Open with the probe in flight, its completion (ok|error) races with new requests and stale completions; (S4) a probe rejected by a second, still Open breaker, racing with other requests and with stale completions that decide the Half-Open phase first. The virtual clock is frozen during the race. Oracles over a totally ordered event log (listener callbacks + decisions): per breaker the transitions form a valid path with matching previous state, each performed once; S1 exactly one admitted probe; S2 exactly one Closed->Open; S3 a request is admitted only after Half-Open->Closed; S4 nobody admitted and every Half-Open phase ended by a roll-back or a close; final state = last transition. Non-trivial = execution with >= 1 preemption; distinct = distinct (schedule, outcome) hash."
     }
     fn components(&self) -> Value {
         json!({"real": ["sentinel-core (mechanically rewritten copy): circuit-breaker slot, stat slot, BreakerBase transitions and exit-hook rollback, the breakers, manager, EntryBuilder, slot chain"],
@@ -126,8 +126,20 @@ impl Prop for C16 {
                 }
             }
             _ => {
-                for _ in 0..ntasks {
-                    tasks.push(vec![TaskOp::Enter; rng.range(1, 2) as usize]);
+                // requests, and (one program in two) completions of entries admitted while Closed:
+                // such a completion decides a Half-Open phase that a rejected probe is about to roll back
+                let with_stale = rng.chance(1, 2);
+                for j in 0..ntasks {
+                    let n = rng.range(1, 2) as usize;
+                    let mut ops = vec![];
+                    for _ in 0..n {
+                        if with_stale && rng.chance(1, 3) {
+                            ops.push(TaskOp::CompleteStale { j, err: rng.chance(1, 3) });
+                        } else {
+                            ops.push(TaskOp::Enter);
+                        }
+                    }
+                    tasks.push(ops);
                 }
             }
         }
@@ -353,9 +365,12 @@ fn body(epoch_ns: u64, prog: &Program, obs: Obs) {
                 oracle_fail!("C16/S4/admitted-although-second-breaker-open", "{} requests admitted", admitted);
             }
             let probes = b1_trans.iter().filter(|t| **t == (1, 2)).count();
+            // every Half-Open phase is ended: by the rejected probe's roll-back (or a stale failure),
+            // or by a stale successful completion that closes the breaker
             let rollbacks = b1_trans.iter().filter(|t| **t == (2, 1)).count();
-            if probes != rollbacks {
-                oracle_fail!("C16/S4/rejected-probe-not-rolled-back", "{} probes won, {} rolled back (transitions {:?})", probes, rollbacks, b1_trans);
+            let closes = b1_trans.iter().filter(|t| **t == (2, 0)).count();
+            if probes != rollbacks + closes {
+                oracle_fail!("C16/S4/rejected-probe-not-rolled-back", "{} probes won, {} rolled back, {} closed (transitions {:?})", probes, rollbacks, closes, b1_trans);
             }
         }
     }
